@@ -10,7 +10,9 @@ cd /repo
 git worktree remove --force $WT 2>/dev/null
 git worktree add --detach $WT HEAD >/dev/null 2>&1 || exit 9
 cp /repo/Cargo.lock $WT/
-seeds=${@:-$(ls -d /verif/seeded/*/)}
+cd /verif
+seeds=$(for s in ${@:-$(ls -d /verif/seeded/*/)}; do realpath $s; done)
+cd /repo
 for d in $seeds; do
   d=${d%/}
   id=$(basename $d)
